@@ -639,7 +639,7 @@ async def _dump_db(context) -> dict:
     return out
 
 
-def run_spec(spec: dict, seed: int, workdir: str, timeout: float = 60.0, shuffle: bool = True, settle: float = 2.0) -> dict:
+def run_spec(spec: dict, seed: int, workdir: str, timeout: float = 60.0, shuffle: bool = True, settle: float = 1.0) -> dict:
     """one run of the spec on the real engine under the PRNG schedule `seed`"""
     os.makedirs(workdir, exist_ok=True)
     result: dict[str, Any] = {"seed": seed}
